@@ -711,6 +711,9 @@ class Frame:
                     for n, x in list(f.env.items()):
                         if x is o:
                             f.env[n] = newo
+                for kk, x in list(getattr(s.it, 'shadow_attrs', {}).items()):
+                    if x is o:
+                        s.it.shadow_attrs[kk] = newo
                 s.assign(t.value, newo) if isinstance(t.value, (ast.Name, ast.Subscript)) else None
         elif isinstance(t, ast.Attribute):
             o = s.ev(t.value)
@@ -753,9 +756,20 @@ class Frame:
             if isinstance(o, BaseException) and e.attr == 'args' and hasattr(o, 'sym_args'):
                 return o.sym_args
             try:
-                return getattr(o, e.attr)
+                v = getattr(o, e.attr)
             except Exception as ex:
                 raise PyExc(ex)
+            if isinstance(o, type) and type(v) in (dict, list, set) and any((o.__module__ or '').startswith(p) for p in s.it.prefixes):
+                # mutable class-level state of the code under test: a private copy per path (shared by all uses on the path,
+                # never written through to the real class), symbolic from the start when it is an empty dict
+                owner = next((c for c in o.__mro__ if e.attr in c.__dict__), o)
+                sh = s.it.__dict__.setdefault('shadow_attrs', {})
+                key = (id(owner), e.attr)
+                if key not in sh:
+                    import copy
+                    sh[key] = SDict([]) if type(v) is dict and not v else copy.deepcopy(v)
+                return sh[key]
+            return v
         if T is ast.Call:
             if isinstance(e.func, ast.Name) and e.func.id == 'super' and not e.args and 'super' not in s.env:
                 return s.make_super()
